@@ -4,12 +4,14 @@ import (
 	"bytes"
 	"fmt"
 	"strconv"
+	"time"
 
 	simplefixgo "github.com/b2broker/simplefix-go"
 	"github.com/b2broker/simplefix-go/session"
 	"github.com/b2broker/simplefix-go/storages/memory"
 	fixgen "github.com/b2broker/simplefix-go/tests/fix44"
 
+	"verifharness/fixref"
 	"verifharness/rig"
 	"verifharness/vk"
 )
@@ -100,6 +102,76 @@ func resendScenario(c *vk.Ctx, i int) {
 		c.Count("resend_requests_over_refused_numbers", 1)
 		if leaked(res.Outs, "on-behalf-of-a-resend-request") {
 			return
+		}
+	}
+}
+
+// logoutScenario: the message that cannot be stored, or that an outgoing handler refuses, is the session's own Logout
+// (sent by Session.Logout or Session.Stop). It is a message like any other: it does not leave.
+func logoutScenario(c *vk.Ctx, i int) {
+	role := rig.Role(i % 2)
+	mode := []string{"save-fails", "all-handler-refuses", "type-handler-refuses"}[(i/2)%3]
+	via := []string{"Logout", "Stop"}[(i/6)%2]
+	lg := &clog{}
+	st := &store{Storage: memory.NewStorage(), log: lg}
+	refuse := func(m simplefixgo.SendingMessage) bool { return m.MsgType() != "5" }
+	rg, err := rig.NewStepRig(rig.StepCfg{Role: role, HeartBtInt: 30, Limits: &session.IntLimits{Min: 5, Max: 60}, Counter: st, Messages: st, SentinelBarrier: true, CloseTimeout: 300 * time.Millisecond,
+		AfterRun: func(h *simplefixgo.DefaultHandler, s *session.Session) {
+			switch mode {
+			case "all-handler-refuses":
+				h.HandleOutgoing(simplefixgo.AllMsgTypes, refuse)
+			case "type-handler-refuses":
+				h.HandleOutgoing("5", refuse)
+			}
+		}})
+	if err != nil {
+		c.Inconclusive("rig: " + err.Error())
+		return
+	}
+	defer rg.Close()
+	p := rig.NewPeer()
+	if res := rg.Inbound(p.Logon(30, "0")); !res.Logged {
+		c.Inconclusive("logout scenario: no logon")
+		return
+	}
+	for k := 0; k < i%3; k++ {
+		rg.Do(func() error { return rg.S.Send(fixgen.CreateMarketDataRequestReject("before-" + strconv.Itoa(k))) })
+	}
+	if mode == "save-fails" {
+		st.mu.Lock()
+		st.failAt = st.n + 1
+		st.mu.Unlock()
+	}
+	desc := fmt.Sprintf("%s Session.%s while %s for the Logout", role, via, mode)
+	replay := map[string]interface{}{"scenario": desc, "index": i, "seed": c.Seed}
+	m0 := lg.mark()
+	res := rg.Do(func() error {
+		if via == "Stop" {
+			return rg.S.Stop()
+		}
+		return rg.S.Logout()
+	})
+	if res.TimedOut {
+		c.Inconclusive("watchdog: " + desc)
+		return
+	}
+	c.Eval(vk.Hash64([]byte(desc), []byte{byte(i)}), true)
+	c.Count("logouts_that_could_not_be_stored_or_were_refused", 1)
+	saved := map[string]bool{}
+	for _, e := range lg.since(m0) {
+		if e.kind == "save" && e.ok {
+			saved[strconv.Itoa(e.seq)] = true
+		}
+	}
+	for _, o := range res.Outs {
+		if o.Type != "5" {
+			continue
+		}
+		if mode == "save-fails" && !saved[fixref.GetS(o.Fields, rig.TSeq)] {
+			c.Violate("C19/transmitted-without-save/own-logout", fmt.Sprintf("%s: a Logout with 34=%s is on the wire, but nothing was saved under that number", desc, fixref.GetS(o.Fields, rig.TSeq)), replay)
+		}
+		if mode != "save-fails" {
+			c.Violate("C19/refused-message-transmitted/own-logout/"+mode, desc+": the Logout an outgoing handler refused is on the wire", replay)
 		}
 	}
 }
